@@ -211,12 +211,12 @@ fn structured(t: TyId, k: usize) -> Option<Val> {
         // matrix part, column-major
         let d = cols;
         let ident = |v: f64| -> Vec<f64> { (0..d * d).map(|i| if i / d == i % d { v } else { 0.0 }).collect() };
-        let mut m: Vec<f64> = match k % 14 {
+        let mut m: Vec<f64> = match k % 16 {
             0 => ident(1.0),
             1 => ident(0.0),
             2 => ident(-1.0),
-            3 => { let mut m = ident(1.0); m[d * d - 1] = 0.0; m }                       // one zero on the diagonal
-            4 => { let mut m = ident(2.0); for r in 0..d { m[d + r] = m[r]; } m }           // two equal columns
+            3 => { let mut m = ident(1.0); m[d + 1] = 0.0; m }                             // one zero on the diagonal (a zero scale); last row stays (0,..,0,1)
+            4 => { let mut m = ident(1.0); for r in 0..d { m[d + r] = m[r]; } m }           // two equal columns, still affine
             5 => { let mut m: Vec<f64> = (0..d * d).map(|i| 1.0 + i as f64).collect(); for c in 0..d { m[c * d] = 0.0; } m } // zero row
             6 => { let mut m = ident(1.0); m[0] = -1.0; m[d + 1] = -1.0; m }                // half turn about the last axis
             7 => { let mut m = ident(1.0); m[0] = 0.0; m[1] = 1.0; m[d] = -1.0; m[d + 1] = 0.0; m } // quarter turn
@@ -225,15 +225,17 @@ fn structured(t: TyId, k: usize) -> Option<Val> {
             10 => vec![1.0; d * d],
             11 => (0..d * d).map(|i| if i % d < i / d { 1.0 + i as f64 } else { 0.0 }).collect(), // strictly triangular
             12 => (0..d * d).map(|i| 1.0 + i as f64).collect(),                             // generic
+            13 => { let mut m = ident(1.0); m[d * d - 1] = 0.0; m }                       // zero in the last diagonal entry
+            14 => { let mut m = ident(0.0); m[d * d - 1] = 1.0; m }                       // zero scale, affine
             _ => ident(1e20),
         };
-        if k >= 28 {
+        if k >= 32 {
             return None;
         }
         if tr > 0 {
-            let t: Vec<f64> = if k / 14 == 0 { vec![0.0; tr] } else { (0..tr).map(|i| 1.0 + i as f64).collect() };
+            let t: Vec<f64> = if k / 16 == 0 { vec![0.0; tr] } else { (0..tr).map(|i| 1.0 + i as f64).collect() };
             m.extend(t);
-        } else if k / 14 == 1 {
+        } else if k / 16 == 1 {
             // second pass for plain matrices: the transpose-asymmetric variant of each shape
             m.swap(1, d);
         }
